@@ -889,6 +889,16 @@ class Generator(TreeListener):
                 if isinstance(index, ast.ComponentRef):
                     for f in self.for_loops:
                         if index.name == f.name:
+                            if dim is None:
+                                symbol_name = (
+                                    s.name()
+                                    if len(tree.indices) == 1
+                                    else s.name().split(".")[i] + " in nested symbol " + s.name()
+                                )
+                                raise ValueError(
+                                    "Symbol {} was given an index of {} but this symbol "
+                                    "is not an array.".format(symbol_name, index.name)
+                                )
                             # TODO support nested loops
                             for_loop = f
                             sl = for_loop.index_variable
